@@ -94,11 +94,15 @@ def Grid.construct : Ctor K → Except CtorErr (Grid K)
     checkShape shape
     match shape with
     | [n] => do            -- "the same number is used for both if a single value is given"
-      let b ← checkRadius radius
-      .ok ⟨.cylindrical, [⟨b.1, b.2, n, false⟩, ⟨zlo, zhi, n, pz⟩]⟩
+      if ¬ (zlo < zhi) then .error .value   -- "Upper bound of the axial coordinate must be larger than lower bound"
+      else
+        let b ← checkRadius radius
+        .ok ⟨.cylindrical, [⟨b.1, b.2, n, false⟩, ⟨zlo, zhi, n, pz⟩]⟩
     | [nr, nz] => do
-      let b ← checkRadius radius
-      .ok ⟨.cylindrical, [⟨b.1, b.2, nr, false⟩, ⟨zlo, zhi, nz, pz⟩]⟩
+      if ¬ (zlo < zhi) then .error .value
+      else
+        let b ← checkRadius radius
+        .ok ⟨.cylindrical, [⟨b.1, b.2, nr, false⟩, ⟨zlo, zhi, nz, pz⟩]⟩
     | _ => .error .dimension
 
 end
